@@ -68,6 +68,27 @@ func TestVerifC03(t *testing.T) {
 			fmt.Sprintf("[[interfaces]]\nname = \"eth0\"\nadvertise = true\n[[interfaces.prefix]]\nprefix = \"::/64\"\n[[interfaces.pref64]]\nprefix = %q\n",
 				vbPref64Len(bits)))
 	}
+	// keys a later version might accept (a lifetime where today there is none): all are rejected today; whatever
+	// config.Parse accepts goes through the same build / encode / decode comparison as everything else
+	stanzas := []struct{ kind, base string }{
+		{"pref64", "prefix = \"64:ff9b::/96\"\n"},
+		{"prefix", "prefix = \"2001:db8:1::/64\"\n"},
+		{"route", "prefix = \"2001:db8:f::/48\"\n"},
+		{"rdnss", "servers = [\"2001:db8::53\"]\n"},
+		{"dnssl", "domain_names = [\"example.com\"]\n"},
+	}
+	has := map[string]string{"pref64": "", "prefix": "valid_lifetime preferred_lifetime", "route": "lifetime preference", "rdnss": "lifetime", "dnssl": "lifetime"}
+	for _, st := range stanzas {
+		for _, key := range []string{"lifetime", "valid_lifetime", "preferred_lifetime", "max_lifetime"} {
+			if strings.Contains(" "+has[st.kind]+" ", " "+key+" ") {
+				continue
+			}
+			for k, val := range []string{"30s", "4s", "100s", "5m", "18h12m7.5s", "65535s", "1ns", "auto"} {
+				vbC03Case(t, out, fmt.Sprintf("c03-newkey-%s-%s-%d", st.kind, key, k),
+					fmt.Sprintf("[[interfaces]]\nname = \"eth0\"\nadvertise = true\n[[interfaces.%s]]\n%s%s = %q\n", st.kind, st.base, key, val))
+			}
+		}
+	}
 	n := 1500
 	if verifh.Thorough() {
 		n = 30000
